@@ -537,7 +537,7 @@ class JetAnalysis:
                     jet,
                     event,
                     status_selection="negative",
-                    only_charged=assoc_only_charged,
+                    only_charged=False,
                 )
                 associated_particles = self.fill_associated_particles(
                     jet,
